@@ -366,7 +366,10 @@ def _run_unit(ccls, case_name, case, res, goal_rlimit):
     for ob in res.obligations:
         if ob["verdict"] == "refuted":
             try:
-                ob["replay"] = replay(ccls, case, ob["model"] or {})
+                custom = getattr(ccls, "replay", None)
+                ob["replay"] = custom(case, ob["name"], ob["model"] or {}) if custom is not None else None
+                if ob["replay"] is None:
+                    ob["replay"] = replay(ccls, case, ob["model"] or {})
             except Exception:
                 ob["replay"] = {"status": "replay-error", "detail": traceback.format_exc()}
 
